@@ -142,7 +142,11 @@ impl<E: Effect> Repl<E> {
         // Update REPL state
         self.bindings = bindings;
         self.module_cache = module_cache;
-        self.last_result_type = result_type;
+        // A line with no executable code (type definitions only) does not run, so the process
+        // keeps its previous result: keep that result's type for the next line too.
+        if !instructions.is_empty() {
+            self.last_result_type = result_type;
+        }
 
         // Only create function wrapper if we have instructions to execute
         let function_index = if !instructions.is_empty() {
